@@ -822,5 +822,64 @@ pub fn all() -> Vec<Witness> {
             case: case_of(main, vec![], b"", vec![]),
         });
     }
+    // ---- PRINT column counts characters ----
+    {
+        let mut b = B(0);
+        let main = vec![
+            b.print(
+                Dev::Screen,
+                vec![e(lit("\u{c8}")), PItem::Comma, e(lit("b"))],
+            ),
+            b.s(StmtKind::End),
+        ];
+        out.push(Witness {
+            name: "fixed-print-column-counts-characters",
+            property: "C16",
+            class: "Layout",
+            key: "",
+            what: "PRINT CHR$(200), \"b\": the device column advanced by the two bytes of the character instead of one column, the comma padded 12 blanks instead of 13",
+            case: case_of(main, vec![], b"", vec![]),
+        });
+    }
+    // ---- USING string field cut in bytes ----
+    {
+        let mut b = B(0);
+        let main = vec![
+            b.s(StmtKind::Print {
+                dev: Dev::Screen,
+                items: vec![e(lit("\u{c8}\u{c8}\u{c8}"))],
+                using: Some("\\  \\<".into()),
+            }),
+            b.s(StmtKind::End),
+        ];
+        out.push(Witness {
+            name: "fixed-using-string-field-in-characters",
+            property: "C16",
+            class: "Layout",
+            key: "",
+            what: "PRINT USING \"\\  \\\" of three characters above 127 printed two of them: the field width was applied to bytes (fix_length), as was the length of STRING * n values",
+            case: case_of(main, vec![], b"", vec![]),
+        });
+    }
+    // ---- USING minus sign inside the digit positions ----
+    {
+        let mut b = B(0);
+        let main = vec![
+            b.s(StmtKind::Print {
+                dev: Dev::Screen,
+                items: vec![e(int(-123))],
+                using: Some("#,###|".into()),
+            }),
+            b.s(StmtKind::End),
+        ];
+        out.push(Witness {
+            name: "fixed-using-minus-sign-position",
+            property: "C16",
+            class: "Layout",
+            key: "",
+            what: "PRINT USING \"#,###\"; -123 printed -,123: the sign was formatted as a digit, the thousands separator followed it",
+            case: case_of(main, vec![], b"", vec![]),
+        });
+    }
     out
 }
